@@ -160,6 +160,15 @@ def run_property(pid: str, tier: str, only: Optional[str], jobs: int) -> int:
                                 "timeout": ob.timeout[tier], "excludes": excludes, "partition": None, "twin": False})
                 continue
             parts = ob.partitions.get(tier) or [None]
+            if parts != [None]:
+                # partition cover: the part of the pre-space that NO partition covers must be empty, otherwise the run would
+                # silently skip it.  Variant = post: False + the negation of every partition: "Unable to meet precondition"
+                # (or no counterexample) = covered; a counterexample = a gap (reported as inconclusive, never as success).
+                vdir = os.path.join(work, f"{ob.name}_cover")
+                vpath = os.path.join(vdir, f"{pid}.py")
+                write_variant(src, ob.name, [f"not ({e})" for e in excludes] + [f"not ({p_})" for p_ in parts], True, vpath)
+                joblist.append({"kind": "crosshair", "ob": ob, "fn": ob.name, "variant": vpath, "partition": "__cover__",
+                                "twin": True, "cover": True, "timeout": 60})
             for pi, part in enumerate(parts):
                 extra = [f"not ({e})" for e in excludes] + ([part] if part else [])
                 for twin in (False, True):
@@ -190,6 +199,18 @@ def run_property(pid: str, tier: str, only: Optional[str], jobs: int) -> int:
             if ob.kind == "crosshair":
                 rep["contract"] = contract_lines(src, ob.name)
             for j in mine:
+                if j.get("cover"):
+                    r = j["result"]
+                    cov = {"partition": "__cover__", "wall_s": r.get("wall_s"), "paths": r.get("stats", {}).get("num_paths", 0)}
+                    if r["status"] == "counterexample":
+                        n_units += 1
+                        msg = next((m for m in r["messages"] if m["state"] in ("post_fail", "exec_err", "post_err")), {"message": ""})
+                        cov["verdict"] = "inconclusive:partition_gap"
+                        cov["solver_message"] = msg["message"][:300]
+                    else:
+                        cov["verdict"] = "cover:" + r["status"]  # pre_unsat / not_confirmed / timeout: no input outside the partitions was found
+                    rep["units"].append(cov)
+                    continue
                 if j["twin"]:
                     continue
                 r = j["result"]
@@ -230,7 +251,7 @@ def run_property(pid: str, tier: str, only: Optional[str], jobs: int) -> int:
                     rep["units"].append(unit)
                     continue
                 # crosshair
-                twin = next(t for t in mine if t["twin"] and t["partition"] == j["partition"])["result"]
+                twin = next(t for t in mine if t["twin"] and not t.get("cover") and t["partition"] == j["partition"])["result"]
                 stats = r.get("stats", {})
                 unit["paths"] = stats.get("num_paths", 0)
                 unit["stats"] = stats
@@ -293,6 +314,22 @@ def run_property(pid: str, tier: str, only: Optional[str], jobs: int) -> int:
             ob_reports.append(rep)
             if len(samples) < 12:
                 samples.append({"obligation": ob.name, "contract": rep.get("contract"), "first_unit": rep["units"][0] if rep["units"] else None})
+
+        # known findings attached to obligations that are not part of this tier: still replay their witness and say so
+        if only is None:
+            in_tier = {o.name for o in obs}
+            for k in known:
+                if k.get("obligation") in in_tier:
+                    continue
+                if hasattr(mod, k.get("obligation", "")) and k.get("witness") is not None and "args" in k["witness"]:
+                    nat = native(harness_file, k["obligation"], k["witness"].get("args", []), k["witness"].get("kwargs", {}), tier)
+                    still = nat.get("holds") is False
+                else:
+                    still = True
+                if still:
+                    print(f"KNOWN-FINDING: property={pid} {k.get('what')} [{k.get('id')}; obligation {k.get('obligation')} (other tier); witness {json.dumps(k.get('witness'))}]")
+                else:
+                    print(f"NOTE: known finding {k.get('id')} of {pid} no longer reproduces on this tree (witness holds)")
 
         wall = round(time.time() - t_start, 2)
         inconclusive = [
